@@ -390,7 +390,7 @@ func checkRowMapping(c *Ctx, rule string) {
 			}
 		}
 	}
-	c.Floor(rule, "insert_statements", nIns, 2) // one per SQL backend; the three SQLite inserts may share one statement
+	c.Floor(rule, "insert_statements", nIns, 1) // non-vacuity only: the backends (and the three SQLite inserts) may share one statement
 	c.Floor(rule, "reading_statements", nSel, 6)
 }
 
